@@ -158,3 +158,19 @@ _install1 = install
 def install(registry):      # noqa: F811
     _install1(registry)
     registry['sort:tvector'] = sort_tvector
+
+
+def sort_vector_fp(I, name):
+    """A vector whose fingerprint memo fields are arbitrary (None or some value)."""
+    v = fresh_vector(I, name)
+    v.fields['_fp'] = fresh_of_sort(I, 'opt_int', name + '._fp')
+    v.fields['_fp_powers'] = fresh_of_sort(I, 'alt:none|list_int', name + '._fp_powers')
+    return v
+
+
+_install2 = install
+
+
+def install(registry):      # noqa: F811
+    _install2(registry)
+    registry['sort:vector_fp'] = sort_vector_fp
